@@ -584,7 +584,7 @@ def templates():
 # fault kinds ------------------------------------------------------------
 
 ROLE_FAULTS = ["readonly", "int8", "uint8", "bool", "bigint", "overlap", "noncontig", "zerod", "size1", "empty",
-               "dim_mismatch", "other_registry", "intdtype", "view", "guarded_unit"]
+               "dim_mismatch", "other_registry", "intdtype", "view", "guarded_unit", "sibling_subclass"]
 PARAM_FAULTS = {"u": ["unknown_unit", "absent_symbol", "dim_mismatch_u", "garbage_u"],
                 "sys": ["irreducible", "unknown_sys"],
                 "equiv": ["bad_equiv_name", "equiv_not_covering", "surplus_kw", "bad_kw_value"],
@@ -611,7 +611,7 @@ def grid():
             for k in ROLE_FAULTS:
                 if k == "dim_mismatch" and r == "x" and len(t.roles) == 1:
                     continue
-                if k == "overlap" and len(t.roles) < 2:
+                if k in ("overlap", "sibling_subclass") and len(t.roles) < 2:
                     continue
                 cells.append((name, r, k))
         for prm in t.params:
@@ -806,6 +806,12 @@ class Gen18:
                     s["shape"] = (s["shape"][0] + 1,) if s["view"] == "tail" else s["shape"]
             elif kind == "overlap" and other:
                 s["reuse"] = (r.choice(other), r.choice(["all", "same", "rev", "self"]))
+            elif kind == "sibling_subclass":
+                # this operand is an instance of one user subclass of unyt_array, the others of a SIBLING subclass
+                # (neither derived from the other): unyt refuses to choose a result class for such a pair
+                s["cls"] = "A"
+                for ro in other:
+                    spec[ro]["cls"] = "B"
             elif kind == "dim_mismatch":
                 s["unit"] = self.pick_unit(avoid_dim=self.dim_of(spec[other[0]]["unit"]) if other else xdim)
             elif kind == "guarded_unit":
@@ -901,6 +907,9 @@ class Gen18:
                 continue
             ops.append(self.mk(s["unit"], s["dtype"], tuple(s["shape"]), s["reg"], s["ro"], s["q"] and tuple(s["shape"]) == (),
                                s["positive"], s["big"], s.get("vals")))
+            if s.get("cls"):
+                ops[-1]["cls"] = s["cls"]
+                ops[-1]["q"] = False
             idx = base_n + sum(1 for o in ops if o["k"] in ("mk", "view")) - 1
             if s["view"] is not None and view_ok(s["view"], tuple(s["shape"])):
                 ops.append({"k": "view", "of": idx, "how": s["view"]})
@@ -925,6 +934,18 @@ def make_config(rng):
 # --------------------------------------------------------------- executor
 
 
+_SUBS = {}
+
+
+def _subclasses():
+    """Two sibling user subclasses of unyt_array (as yt's YTArray and another package's would be)."""
+    if not _SUBS:
+        unyt, ua, uo, ur = _mods()
+        _SUBS["A"] = type("SimArrayA", (unyt.unyt_array,), {})
+        _SUBS["B"] = type("SimArrayB", (unyt.unyt_array,), {})
+    return _SUBS
+
+
 def do_mk(w, op):
     unyt, ua, uo, ur = _mods()
     dt = op["dt"]
@@ -941,6 +962,8 @@ def do_mk(w, op):
         obj = unyt.unyt_quantity(root, op["unit"], registry=reg)
     else:
         obj = unyt.unyt_array(root, op["unit"], registry=reg)
+    if op.get("cls"):
+        obj = obj.view(_subclasses()[op["cls"]])
     if not np.shares_memory(obj, root) and root.size:
         raise HarnessError("mk: object does not view its root")
     w.roots.append(root)
